@@ -67,6 +67,13 @@ extern int  cfg_lexer_include(cfg_t *cfg, const char *fname);
 extern void cfg_scan_fp_begin(FILE *fp);
 extern void cfg_scan_fp_end(void);
 
+/*
+ * Number of scans in progress (they nest: default values of a new section,
+ * parses started from callbacks).  The scanner is shared by all contexts
+ * and must not be torn down under a running scan.
+ */
+static int cfg_scans_active = 0;
+
 static int cfg_parse_internal(cfg_t *cfg, int level, int force_state, cfg_opt_t *force_opt);
 static void cfg_free_opt_array(cfg_opt_t *opts);
 static int cfg_print_pff_indent(cfg_t *cfg, FILE *fp,
@@ -815,12 +822,14 @@ static int cfg_init_defaults(cfg_t *cfg)
 						ret = STATE_ERROR;
 				} else {
 					cfg_scan_fp_begin(fp);
+					cfg_scans_active++;
 
 					do {
 						ret = cfg_parse_internal(cfg, 1, xstate, &cfg->opts[i]);
 						xstate = -1;
 					} while (ret == STATE_CONTINUE);
 
+					cfg_scans_active--;
 					cfg_scan_fp_end();
 					fclose(fp);
 				}
@@ -1800,7 +1809,9 @@ DLLIMPORT int cfg_parse_fp(cfg_t *cfg, FILE *fp)
 
 	cfg->line = 1;
 	cfg_scan_fp_begin(fp);
+	cfg_scans_active++;
 	ret = cfg_parse_internal(cfg, 0, -1, NULL);
+	cfg_scans_active--;
 	cfg_scan_fp_end();
 	if (ret == STATE_ERROR)
 		return CFG_PARSE_ERROR;
@@ -2125,7 +2136,8 @@ DLLIMPORT int cfg_free(cfg_t *cfg)
 		free(cfg->filename);
 
 	free(cfg);
-	if (isroot)
+	/* a section may be called "root" too, and a callback may free another context */
+	if (isroot && !cfg_scans_active)
 		cfg_yylex_destroy();
 
 	return CFG_SUCCESS;
